@@ -38,11 +38,13 @@ def CHG(pos, operand):
             "forall|p: int| #[trigger] is_start(old(self), p) ==> op_at(code(final(self)), p) == op_at(code(old(self)), p)",
             "fresh(&sc(old(self))) ==> fresh(&sc(final(self)))",
             "forall|i: int| 0 <= i < code(old(self)).len() && !(%s < i < %s + ilen(op_at(code(old(self)), %s as int))) ==> code(final(self))[i] == code(old(self))[i]" % (pos, pos, pos),
-            "forall|a: &Compiler| #[trigger] ext(a, old(self)) && %s >= code(a).len() ==> ext(a, final(self))" % pos]
+            "forall|a: &Compiler| #[trigger] ext0(a, old(self)) && %s >= code(a).len() ==> ext0(a, final(self))" % pos,
+            "forall|a: &Compiler| #[trigger] gen(a, old(self)) && %s >= code(a).len() ==> gen(a, final(self))" % pos,
+            "forall|p: int| #[trigger] is_start(old(self), p) ==> is_start(final(self), p)"]
 
 
 def CHG_EPI(pos):
-    return ("lemma_patched(old(self), self, %s as int, operand); assert forall|a: &Compiler| #[trigger] ext(a, old(self)) && %s >= code(a).len() implies ext(a, self) by { lemma_patched_ext(a, old(self), self, %s as int); }" % (pos, pos, pos))
+    return ("lemma_patched(old(self), self, %s as int, operand); assert forall|a: &Compiler| #[trigger] ext0(a, old(self)) && %s >= code(a).len() implies ext0(a, self) by { lemma_patched_ext(a, old(self), self); } assert forall|a: &Compiler| #[trigger] gen(a, old(self)) && %s >= code(a).len() implies gen(a, self) by { lemma_patched_gen(a, old(self), self); }" % (pos, pos, pos))
 
 
 def m(path, **kw):
@@ -71,8 +73,9 @@ HELPERS = [
                "sc(final(self)).last_ins.opcode == op", "sc(final(self)).last_ins.position == pos", "sc(final(self)).prev_ins == sc(old(self)).last_ins",
                "others_same(old(self), final(self))", "scope_meta_same(old(self), final(self))",
                "fits_all(op, operands@) || final(self).encoding_error is Some",
-               "fresh(&sc(final(self)))", "ext(old(self), final(self))", "starts(code(final(self))) == starts(code(old(self))).push(pos as int)"],
-      epilogue="assert(lns(self).subrange(0, lns(old(self)).len() as int) =~= lns(old(self))); lemma_emit(old(self), self, op, operands@);", props=["C01", "C08", "C13", "C14"]),
+               "fresh(&sc(final(self)))", "ext(old(self), final(self))", "gen_s(old(self), final(self))", "starts(code(final(self))) == starts(code(old(self))).push(pos as int)",
+               "is_start(final(self), pos as int)", "op_at(code(final(self)), pos as int) == op", "code(final(self)).len() == code(old(self)).len() + ilen(op)"],
+      epilogue="assert(lns(self).subrange(0, lns(old(self)).len() as int) =~= lns(old(self))); lemma_emit(old(self), self, op, operands@); lemma_op_of_byte(op); assert(starts(code(self))[starts(code(old(self))).len() as int] == verif_ret);", props=["C01", "C08", "C13", "C14"]),
     m("is_last_instruction", ret="r", requires=["self.scope_index < self.scopes@.len()"], ensures=["r == (code(self).len() > 0 && sc(self).last_ins.opcode == opcode)"]),
     m("replace_instruction", requires=["old(self).scope_index < old(self).scopes@.len()", "pos + new_instruction@.len() <= code(old(self)).len()"],
       ensures=["rest_same(old(self), final(self))", "lns(final(self)) == lns(old(self))",
@@ -99,14 +102,16 @@ HELPERS = [
       ensures=["cwf(final(self))", "code(final(self)) == code(old(self)).subrange(0, sc(old(self)).last_ins.position as int)", "lns(final(self)) == lns(old(self)).subrange(0, sc(old(self)).last_ins.position as int)",
                "sc(final(self)).last_ins == sc(old(self)).prev_ins", "others_same(old(self), final(self))", "scope_meta_same(old(self), final(self))", "final(self).encoding_error == old(self).encoding_error",
                "sc(old(self)).last_ins.position < code(old(self)).len()",
-               "forall|a: &Compiler| #[trigger] ext(a, old(self)) && sc(old(self)).last_ins.position >= code(a).len() ==> ext(a, final(self))"],
+               "forall|a: &Compiler| #[trigger] ext0(a, old(self)) && sc(old(self)).last_ins.position >= code(a).len() ==> ext0(a, final(self))",
+               "forall|p: int| #[trigger] is_start(old(self), p) && p < sc(old(self)).last_ins.position ==> is_start(final(self), p) && op_at(code(final(self)), p) == op_at(code(old(self)), p) && sc(final(self)).last_ins.position >= p"],
       prologue=" proof { assert(swf(&sc(self))); lemma_truncate(code(self)); } ",
-      epilogue="lemma_removed(old(self), self);",
+      epilogue="lemma_removed(old(self), self); lemma_removed_starts(old(self), self);",
       rewrites=[dict(rule="R3", re=r"old_ins\.code\[\.\.last_ins\.position\]\.to_vec\(\)", to="u8_to_vec(&old_ins.code, last_ins.position)", why="slice.to_vec() shim with the bound as precondition"),
                 dict(rule="R3", re=r"old_ins\.lines\[\.\.last_ins\.position\]\.to_vec\(\)", to="usize_to_vec(&old_ins.lines, last_ins.position)", why="slice.to_vec() shim with the bound as precondition")]),
     m("replace_last_pop_with_return", requires=PRE + ["code(old(self)).len() > 0", "sc(old(self)).last_ins.opcode == Opcode::Pop"],
       ensures=["cwf(final(self))", "code(final(self)).len() == code(old(self)).len()", "sc(final(self)).last_ins.opcode == Opcode::ReturnValue", "others_same(old(self), final(self))", "scope_meta_same(old(self), final(self))",
-               "final(self).encoding_error == old(self).encoding_error"],
+               "final(self).encoding_error == old(self).encoding_error",
+               "forall|a: &Compiler| #[trigger] ext0(a, old(self)) && sc(old(self)).last_ins.position >= code(a).len() ==> ext0(a, final(self))"],
       prologue=" proof { assert(swf(&sc(self))); lemma_truncate(code(self)); } ",
       epilogue="lemma_replaced(old(self), self);"),
     m("set_last_instruction", requires=["old(self).scope_index < old(self).scopes@.len()"],
@@ -115,12 +120,98 @@ HELPERS = [
                "sc(final(self)).scope_depth == sc(old(self)).scope_depth", "sc(final(self)).is_filter == sc(old(self)).is_filter"]),
 ]
 
+from vlib import strmatch  # noqa: E402
+from units.exprparse.unit import TYPES as AST_TYPES  # noqa: E402
+
+AST = [t for t in AST_TYPES if t["path"] not in ("Precedence", "Parser")]
+NODEC = ["#[verifier::exec_allows_no_decreases_clause]"]
+GEN = ["r is Ok ==> gen(old(self), final(self))"]
+GEN_S = ["r is Ok ==> gen_s(old(self), final(self))"]
+BCAST = " broadcast use lemma_ext_trans, lemma_gen_trans, lemma_gen_s_trans, lemma_start_kept; "
+REFL = " proof { lemma_gen_refl(self, self); } "
+
+RW2 = [
+    dict(rule="R4s", func=strmatch.rewrite, why="match on string literals -> guards over a string-equality shim, same order"),
+    dict(rule="R3f", re=r"&format!\((?:[^()]|\((?:[^()]|\([^()]*\))*\))*\)", to="fmt_str()", why="format! message text dropped"),
+    dict(rule="R3", re=r"panic!\(\"Invalid statement encountered\"\);", to="ast_invariant_violation();", why="unreachable for parser output (assumption, listed)"),
+    dict(rule="R3", re=r"panic!\(\"invalid builtin identifier \{\}\", bid\.token\.line\);", to="ast_invariant_violation();", why="unreachable for parser output (assumption, listed)"),
+    dict(rule="R3", re=r"Object::File\(Rc::new\(FileHandle::(\w+)\)\)", to=r"obj_file_\1()", why="Object constructor shim"),
+    dict(rule="R3", re=r"Object::Func\(Rc::new\(CompiledFunction::new\((.*?)\)\)\)", to=r"obj_func(\1)", why="Object constructor shim"),
+    dict(rule="R3", re=r"Object::(Integer|Float|Str|Char|Byte)\(", to=r"obj_\1(", why="Object constructor shim"),
+    dict(rule="R3", re=r"Object::Null\b", to="obj_Null()", why="Object constructor shim"),
+    dict(rule="R3", re=r"Rc::new\(obj\)", to="rc_object(obj)", why="Rc::new shim"),
+    dict(rule="R3", re=r"self\.symtab\.(define|define_function_name|resolve|leave_block)\(", to=r"symtab_\1(&mut self.symtab, ", why="symbol table behind its contract (symtab unit)"),
+    dict(rule="R3", re=r"self\.symtab\.get_num_definitions\(\)", to="symtab_get_num_definitions(&self.symtab)", why="symbol table shim"),
+    dict(rule="R3", re=r"self\.symtab\.free_symbols\.clone\(\)", to="symtab_free_symbols_clone(&self.symtab)", why="symbol table shim"),
+    dict(rule="R3", re=r"SymbolTable::new_enclosed\(self\.symtab\.clone\(\)\)", to="symtab_new_enclosed(symtab_clone(&self.symtab))", why="symbol table shim"),
+    dict(rule="R3", re=r"self\.symtab\.outer\.as_ref\(\)\.unwrap\(\)\.as_ref\(\)\.clone\(\)", to="symtab_outer_clone(&self.symtab)", why="symbol table shim: requires an enclosing table"),
+    dict(rule="R1", re=r"CompilationScope::default\(\)", to="scope_default()", why="derived Default -> shim"),
+    dict(rule="R3", re=r"expr\.value as usize", to="prop_as_usize(&expr.value)", why="enum-to-integer cast of an opaque enum -> shim"),
+    dict(rule="R3", re=r"&binary\.operator,", to="string_as_str(&binary.operator),", why="&String -> &str coercion made explicit"),
+    dict(rule="R3", re=r"(\w+(?:\.\w+)*)\.statements\.last\(\)", to=r"last_stmt(&\1.statements)", why="slice::last shim"),
+    dict(rule="R9", re=r"let len = map\.pairs\.len\(\) \* 2;", to="proof { axiom_pairs_len(&map.pairs); } let len = map.pairs.len() * 2;", why="assumption (listed): a vector of two-expression pairs has fewer than usize::MAX / 2 elements (allocation limit)"),
+    dict(rule="R3", re=r"self\.compile_match_expression\(", to="compile_match_expression_shim(self, ", why="compile_match_expression behind the common contract (not yet verified)"),
+    dict(rule="R3", re=r"self\.compile_filter_statement\(", to="compile_filter_statement_shim(self, ", why="compile_filter_statement behind the common contract (not yet verified)"),
+    dict(rule="R3", re=r"self\.scopes\[self\.scope_index\]\.scope_depth -= 1;", to=r"let verif_i = self.scope_index; let mut verif_sc = scope_take(&mut self.scopes, verif_i); verif_sc.scope_depth -= 1; scope_put(&mut self.scopes, verif_i, verif_sc);", why="update of a field of a Vec element -> take/modify/put back"),
+    dict(rule="R3", re=r"self\.scopes\[self\.scope_index\]\.scope_depth \+= 1;", to=r"let verif_i = self.scope_index; let mut verif_sc = scope_take(&mut self.scopes, verif_i); proof { axiom_depth_bounded(&verif_sc); } verif_sc.scope_depth += 1; scope_put(&mut self.scopes, verif_i, verif_sc);", why="update of a field of a Vec element -> take/modify/put back; assumption (listed): the block depth (one per nested block of the source text) stays below usize::MAX"),
+]
+
+FORSTMT = dict(rule="R5", re=r"for stmt in (\w+(?:\.\w+)*) (/\*@L0@\*/)\{(/\*@LB0@\*/)", to=r"let mut verif_v = \1; let mut verif_k: usize = 0; while verif_k < verif_v.len() \2{ let stmt = vec_take_stmt(&mut verif_v, verif_k); verif_k += 1; \3", expect=1,
+               why="consuming iteration over Vec<Statement> -> index loop in the same order")
+
+COMPILE = [
+    dict(kind="enum", file=ST, path="SymbolScope", attrs=["#[derive(PartialEq, Eq, Structural)]"]),
+    dict(kind="struct", file=ST, path="Symbol"),
+    dict(kind="struct", file=AM, path="Program"),
+    dict(kind="fn", file=C, path="LoopContext::new", ret="r", ensures=["r.label == label", "r.begin == position", "r.break_positions@.len() == 0"], props=["C08"]),
+    dict(kind="fn", file=AS, path="Statement::is_expression", ret="r", ensures=["r == (*self is Expr)"], props=["C06"]),
+    m("add_constant", ret="r", requires=PRE, ensures=["gen_s(old(self), final(self))", "final(self).scopes == old(self).scopes"], epilogue="lemma_gen_refl(old(self), self);"),
+    m("load_symbol", requires=PRE, ensures=["gen_s(old(self), final(self))", "code(final(self)).len() > code(old(self)).len()"], prologue=BCAST),
+    m("save_symbol", ret="r", requires=PRE, ensures=GEN_S + ["r is Ok ==> code(final(self)).len() > code(old(self)).len()"], prologue=BCAST),
+    m("compile_infix_expr", ret="r", requires=PRE, ensures=GEN_S + ["r is Ok ==> code(final(self)).len() == code(old(self)).len() + 1"], prologue=BCAST),
+    m("compile_block_statement", ret="r", requires=PRE, ensures=GEN_S, prologue=BCAST + REFL, attrs=NODEC, rewrites=[FORSTMT],
+      loops={0: dict(invariant=["verif_k <= verif_v@.len()", "ext0(old(self), self)", "sc(self).scope_depth == sc(old(self)).scope_depth + 1", "tail_ok(old(self), self)",
+                                "code(self).len() > code(old(self)).len() ==> fresh(&sc(self))"],
+                     decreases="verif_v@.len() - verif_k", body_prologue=BCAST)}),
+    m("compile_statements", ret="r", requires=PRE, ensures=GEN_S, prologue=BCAST + REFL, attrs=NODEC, rewrites=[FORSTMT],
+      loops={0: dict(invariant=["verif_k <= verif_v@.len()", "gen_s(old(self), self)"], decreases="verif_v@.len() - verif_k", body_prologue=BCAST)}),
+    m("compile_program", ret="r", requires=PRE, ensures=GEN_S, attrs=NODEC),
+    m("compile_let_stmt", ret="r", requires=PRE, ensures=GEN, attrs=NODEC),
+    m("compile_statement", ret="r", requires=PRE, ensures=GEN_S, prologue=BCAST + REFL, attrs=NODEC),
+    m("compile_expression", ret="r", requires=PRE, ensures=GEN, prologue=BCAST + REFL, attrs=NODEC,
+      loops={0: dict(invariant=["gen(old(self), self)"], body_prologue=BCAST), 1: dict(invariant=["gen(old(self), self)"], body_prologue=BCAST), 2: dict(invariant=["gen(old(self), self)"], body_prologue=BCAST)}),
+    m("compile_if_expression", ret="r", requires=PRE, ensures=GEN, prologue=BCAST, attrs=NODEC),
+    m("compile_identifier", ret="r", requires=PRE, ensures=GEN, prologue=BCAST),
+    m("compile_index_expression", ret="r", requires=PRE, ensures=GEN, prologue=BCAST, attrs=NODEC),
+    m("compile_function_literal", ret="r", requires=PRE, ensures=GEN, prologue=BCAST, attrs=NODEC,
+      rewrites=[dict(rule="R9", re=r"(self\.enter_scope\(\);)", to=r"\1 let ghost verif_e = *self;", expect=1, why="ghost snapshot of the compiler after enter_scope"),
+                dict(rule="R9", re=r"(let num_locals = )", to=r"let ghost verif_b = *self; \1", expect=1, why="ghost snapshot of the compiler at the end of the function body"),
+                dict(rule="R9", re=r"(let instructions = self\.leave_scope\(\);)", to=r"\1 proof { lemma_left(old(self), &verif_e, &verif_b, self); }", expect=1, why="proof hint: leaving the scope restores the enclosing scope's stream"),
+                dict(rule="R5", re=r"for f in &free_symbols (/\*@L1@\*/)\{(/\*@LB1@\*/)", to=r"let mut verif_k: usize = 0; while verif_k < free_symbols.len() \1{ let f = &free_symbols[verif_k]; verif_k += 1; \2", expect=1, why="iteration over &Vec -> index loop in the same order"),
+                dict(rule="R1", re=r"\bf\.clone\(\)", to="rc_clone_symbol(f)", expect=1, why="Rc::clone shim")],
+      loops={0: dict(invariant=["entered(old(self), self)", "self.scopes == verif_e.scopes", "self.scope_index == verif_e.scope_index", "st_depth(&self.symtab) == st_depth(&verif_e.symtab)", "verif_e.encoding_error is Some ==> self.encoding_error is Some", "entered(old(self), &verif_e)"], after=" proof { lemma_gen_refl(&verif_e, self); } ", body_prologue=BCAST),
+             1: dict(invariant=["verif_k <= free_symbols@.len()", "gen(old(self), self)"], decreases="free_symbols@.len() - verif_k", body_prologue=BCAST)}),
+    m("compile_logical_and", ret="r", requires=PRE, ensures=GEN, prologue=BCAST, attrs=NODEC),
+    m("compile_logical_or", ret="r", requires=PRE, ensures=GEN, prologue=BCAST, attrs=NODEC),
+    m("compile_dot_expression", ret="r", requires=PRE, ensures=GEN, prologue=BCAST, attrs=NODEC),
+    m("compile_prop_expression", ret="r", requires=PRE, ensures=GEN, prologue=BCAST),
+    m("enter_scope", requires=PRE,
+      ensures=["cwf(final(self))", "final(self).scope_index == old(self).scope_index + 1", "final(self).scopes@.len() == old(self).scopes@.len() + 1",
+               "forall|j: int| 0 <= j < old(self).scopes@.len() ==> final(self).scopes@[j] == old(self).scopes@[j]",
+               "code(final(self)).len() == 0", "sc(final(self)).loop_stack@.len() == 0", "sc(final(self)).scope_depth == 0", "!sc(final(self)).is_filter",
+               "st_depth(&final(self).symtab) == st_depth(&old(self).symtab) + 1", "final(self).encoding_error == old(self).encoding_error", "entered(old(self), final(self))"],
+      prologue=" let verif_n = self.scopes.len(); ", epilogue="lemma_entered(old(self), self);"),
+    m("leave_scope", ret="r", requires=PRE + ["old(self).scope_index >= 1", "st_depth(&old(self).symtab) >= 1"],
+      ensures=["cwf(final(self))", "final(self).scope_index == old(self).scope_index - 1", "final(self).scopes@ == old(self).scopes@.drop_last()",
+               "st_depth(&final(self).symtab) == st_depth(&old(self).symtab) - 1", "final(self).encoding_error == old(self).encoding_error", "r == sc(old(self)).instructions"]),
+]
+
 UNIT = dict(
     name="cgen",
     prelude="units/cgen/prelude.rs",
     uses="use std::rc::Rc;",
     lemmas={},
-    global_rewrites=RW,
+    global_rewrites=RW2 + RW,
     rlimit=30,
     items=[
         dict(kind="enum", file=O, path="Opcode", attrs=["#[derive(Clone, Copy, PartialEq, Eq, Structural)]"]),
@@ -130,5 +221,5 @@ UNIT = dict(
         dict(kind="struct", file=C, path="LoopContext"),
         dict(kind="struct", file=C, path="CompilationScope"),
         dict(kind="struct", file=C, path="Compiler"),
-    ] + HELPERS,
+    ] + AST + HELPERS + COMPILE,
 )
